@@ -2,19 +2,15 @@
 
 package keeper
 
-import (
-	"github.com/ExocoreNetwork/exocore/x/oracle/keeper/aggregator"
-	"github.com/ExocoreNetwork/exocore/x/oracle/keeper/cache"
-)
-
-type VerifMem struct {
-	Agc        *aggregator.VDump
-	AgcCheckTx *aggregator.VDump
-	Cs         *cache.VCacheDump
-	Updated    []string
-}
-
-// VerifDump returns a canonical copy of the package-level oracle state (hook H1, read-only).
-func VerifDump() VerifMem {
-	return VerifMem{Agc: agc.VerifDump(), AgcCheckTx: agcCheckTx.VerifDump(), Cs: cs.VerifDump(), Updated: append([]string{}, updatedFeederIDs...)}
+// Hook H1 (read-only): hands the package-level oracle state to the harness.  Nothing else of the package is
+// referenced here: the harness walks these values by reflection (harness/oracle_reflect.go) and looks the pieces
+// of its projection up BY NAME, so that a renamed or reshaped internal shows up as drift of the projection, never
+// as a build failure.  Lives in $VERIF/harness/overlay and is compiled into the package through `go build -overlay`.
+func VerifRoots() map[string]interface{} {
+	return map[string]interface{}{
+		"agc":              agc,
+		"agcCheckTx":       agcCheckTx,
+		"cs":               cs,
+		"updatedFeederIDs": updatedFeederIDs,
+	}
 }
